@@ -247,6 +247,14 @@ class LitSet(object):
         return "LitSet%r" % (self.items,)
 
 
+class EnumV(object):
+    """enumerate(seq, start) over a sequence of symbolic length"""
+    __slots__ = ("seq", "start")
+
+    def __init__(self, seq, start=0):
+        self.seq, self.start = seq, start
+
+
 class RangeV(object):
     __slots__ = ("lo", "hi", "step")
 
@@ -314,7 +322,7 @@ def to_int_term(v):
             return z3.If(v, z3.IntVal(1), z3.IntVal(0))
         if z3.is_int(v):
             return v
-    raise EngineError("not an integer value: %r" % (v,))
+    raise EngineError("not an integer value: %s" % type(v).__name__)
 
 
 def to_bool_term(v):
@@ -322,7 +330,7 @@ def to_bool_term(v):
         return z3.BoolVal(v)
     if is_z3(v) and z3.is_bool(v):
         return v
-    raise EngineError("not a boolean value: %r" % (v,))
+    raise EngineError("not a boolean value: %s" % type(v).__name__)
 
 
 def leaf_sort(shape):
@@ -383,6 +391,8 @@ def build_from_leaves(shape, leaves):
 def flatten_value(shape, v):
     """Scalar leaves (z3 terms) of a value of the given element shape."""
     if isinstance(shape, TInt):
+        if isinstance(v, ObjV) and "__id__" in v.fields:
+            return [to_int_term(v.fields["__id__"])]       # an object stored by identity
         return [to_int_term(v)]
     if isinstance(shape, TBool):
         return [to_bool_term(v)]
@@ -396,7 +406,7 @@ def flatten_value(shape, v):
         if isinstance(v, ListV):
             v = v.items
         if not isinstance(v, tuple) or len(v) != len(shape.items):
-            raise EngineError("value %r does not fit shape %r" % (v, shape))
+            raise EngineError("value of type %s does not fit shape %r" % (type(v).__name__, shape))
         out = []
         for s, x in zip(shape.items, v):
             out.extend(flatten_value(s, x))
@@ -416,7 +426,7 @@ def flatten_value(shape, v):
         return []
     if isinstance(shape, TSmallSet):
         if not isinstance(v, LitSet):
-            raise EngineError("cannot flatten %r as a small set" % (v,))
+            raise EngineError("cannot flatten %s as a small set" % type(v).__name__)
         out = []
         for u in shape.universe:
             uu = NONE if u is None else u
@@ -425,7 +435,7 @@ def flatten_value(shape, v):
                 raise EngineError("small set with symbolic members")
             out.append(z3.Or(*cs) if len(cs) > 1 else (cs[0] if cs else z3.BoolVal(False)))
         return out
-    raise EngineError("cannot flatten %r as %r" % (v, shape))
+    raise EngineError("cannot flatten %s as %r" % (type(v).__name__, shape))
 
 
 def default_leaf(shape):
@@ -456,7 +466,7 @@ def to_real_term(v):
             return z3.ToReal(v)
         if z3.is_bool(v):
             return z3.If(v, z3.RealVal(1), z3.RealVal(0))
-    raise EngineError("not a real value: %r" % (v,))
+    raise EngineError("not a real value: %s" % type(v).__name__)
 
 
 def range_facts(shape, term):
